@@ -147,7 +147,11 @@ static void drv_sad_loop(Run &r) {
     int ah = (int)r.pick(1, 16);
     int raw = bw + aw + 16 + (int)r.pick(0, 64), rs = raw << sub, ss = pick_stride(r, bw) << sub;
     In<uint8_t> src((size_t)ss * bh, 64, 2 * (size_t)r.pick(0, 31)), ref((size_t)raw * ah + (size_t)rs * bh + 64, 64, (size_t)r.pick(0, 63));
-    src.fill(r, 0, 255, "src"); ref.fill(r, 0, 255, "ref");
+    // mild domain (C07_MILD, used to keep searching behind the listed 16-bit-accumulator saturation finding): bound the sample range so that
+    // no SAD of this block can exceed 65535
+    int maxv = 255;
+    if (r.mild) { int lim = 65535 / (bw * bh); maxv = lim < 255 ? (lim < 1 ? 1 : lim) : 255; }
+    src.fill(r, 0, maxv, "src"); ref.fill(r, 0, maxv, "ref");
     Out<uint64_t> best(r, "best_sad", 1); Out<int16_t> xc(r, "x_search_center", 1), yc(r, "y_search_center", 1);
     r.note("block_w", bw); r.note("block_h", bh); r.note("area_w", aw); r.note("area_h", ah); r.note("sub", sub);
     r.exec([&](AnyFn f) { ((drv_sad_loop_fn)f)(src.p(), ss, ref.p(), rs, bh, bw, best.p(), xc.p(), yc.p(), raw, (int16_t)aw, (int16_t)ah); });
